@@ -36,6 +36,7 @@ CONSTANTS NF,       \* number of universe features in use (prefix of Universe)
           NC,       \* number of mock configurations
           Seed,     \* shifts the strided walk through the profile space
           PipeLen,  \* maximal pipeline length
+          NPipe,    \* number of compilation kinds pipelines are made of (prefix of CKPipe)
           AllCK     \* TRUE: every compilation kind of the library; FALSE: CKSmall
 
 Universe == <<"ACTION_BASED", "CONTINUOUS_TIME", "TRAJECTORY_CONSTRAINTS", "STATE_INVARIANTS",
@@ -61,8 +62,8 @@ CKSmall == <<"GROUNDING", "CONDITIONAL_EFFECTS_REMOVING", "DISJUNCTIVE_CONDITION
              "TRAJECTORY_CONSTRAINTS_REMOVING", "STATE_INVARIANTS_REMOVING", "TIMED_TO_SEQUENTIAL", "MA_CENTRALIZATION">>
 CKs == IF AllCK THEN CKAll ELSE CKSmall
 \* compilation kinds pipelines are made of
-CKPipe == <<"QUANTIFIERS_REMOVING", "CONDITIONAL_EFFECTS_REMOVING", "GROUNDING", "TRAJECTORY_CONSTRAINTS_REMOVING",
-            "DISJUNCTIVE_CONDITIONS_REMOVING", "STATE_INVARIANTS_REMOVING">>
+CKPipe == <<"QUANTIFIERS_REMOVING", "CONDITIONAL_EFFECTS_REMOVING", "GROUNDING", "STATE_INVARIANTS_REMOVING",
+            "TRAJECTORY_CONSTRAINTS_REMOVING", "DISJUNCTIVE_CONDITIONS_REMOVING", "DURATIVE_ACTIONS_TO_PROCESSES">>
 
 R(mode, m, ck, pk, og, ag, cks, call) ==
    [mode |-> mode, f |-> KindOf(m), ck |-> ck, pk |-> pk, og |-> og, ag |-> ag, cks |-> cks, call |-> call, grp |-> Grp(m)]
@@ -79,7 +80,7 @@ SingleReqs(m) ==
    \cup {R(md, m, "", "", "", "", <<>>, "all") : md \in {"sequential_simulator", "action_selector"}}
 
 RECURSIVE SeqsOfLen(_)
-SeqsOfLen(n) == IF n = 0 THEN {<<>>} ELSE {Append(s, c) : s \in SeqsOfLen(n - 1), c \in Rng(CKPipe)}
+SeqsOfLen(n) == IF n = 0 THEN {<<>>} ELSE {Append(s, c) : s \in SeqsOfLen(n - 1), c \in Rng(SubSeq(CKPipe, 1, NPipe))}
 \* length 1 and 2: every sequence; length 3: those without immediate repetition
 PipeSeqs == UNION {{s \in SeqsOfLen(n) : n < 3 \/ \A i \in 1..(n - 1) : s[i] # s[i + 1]} : n \in 1..PipeLen}
 PipeReqs(m) == {R("compiler", m, "", "", "", "", s, "pipe") : s \in PipeSeqs}
